@@ -307,12 +307,27 @@ theorem sound_block_seek_upgrade (C : Crypto) (bs : Array Bytes) (wfork : Nat) (
   HashUpgradeSound.block_seek_upgrade_sound C bs wfork Signed t f pk p b s n0 srest u cs' hb hs hsn hu (CreateTotal.canon_of_lt _ (by omega)) hcanon hunf
     hsig hlen hsize hwf hb1 hb2 hT hauth hv
 
+/-- **seek-only proofs** (no block, no hash section, no upgrade): the seek root is compared with a stored node -/
+theorem sound_seek (C : Crypto) (bs : Array Bytes) (t : Tree) (f : File) (pk : Bytes) (p : Proof) (s : Codec.DataSeek) (n0 : Codec.Node)
+    (srest : List Codec.Node) (cs' : Changeset) (hb : p.block = none) (hh : p.hash = none) (hs : p.seek = some s) (hsn : s.nodes = n0 :: srest)
+    (hu : p.upgrade = none) (hcan : n0.index < 2 ^ 64) (hauth : Sound.StoreAuthentic C bs t f) (hv : t.verifyProof C f p pk = .ok cs') :
+    Sound.Collision C ∨ ∃ d o, n0.index = Flat.index d o ∧ n0.hash = (RefTree.node C bs d o).2
+      ∧ (n0.length = (RefTree.node C bs d o).1 → ∀ n ∈ srest, ∃ dn on, n = RefTree.nodeAt C bs dn on) :=
+  HashUpgradeSound.seek_only_sound C bs t f pk p s n0 srest cs' hb hh hs hsn hu (CreateTotal.canon_of_lt _ (by omega)) hauth hv
+
+/-- a seek section without nodes is treated exactly like no seek section (so the theorems stated for `p.seek = none` cover
+    it) -/
+theorem empty_seek_is_no_seek (C : Crypto) (t : Tree) (f : File) (p : Proof) (pk : Bytes) (s : Codec.DataSeek) (hp : p.seek = some s) (hs : s.nodes = []) :
+    t.verifyProof C f p pk = t.verifyProof C f { p with seek := none } pk :=
+  HashUpgradeSound.verifyProof_empty_seek C t f p pk s hp hs
+
 /-- **hash + seek + upgrade in one proof**: the conclusion of `sound_hash_seek` (`HashUpgradeSound.HSOK`: the requested node
     carries the writer's hash; if its size is the writer's, the rest of the hash section and the seek root are the
     writer's, hence the bottom node of the seek section carries the writer's hash, and with its size every seek node is
     the writer's) with respect to the writer's log, or to its signed prefix of the adopted length when the upgrade
     consumed the section's root.  With `sound_block`, `sound_upgrade`, `sound_block_upgrade`, `sound_hash`,
-    `sound_block_seek`, `sound_hash_seek`, `sound_hash_upgrade`, `sound_seek_upgrade` and `sound_block_seek_upgrade` this
+    `sound_seek`, `sound_block_seek`, `sound_hash_seek`, `sound_hash_upgrade`, `sound_seek_upgrade` and `sound_block_seek_upgrade` (and
+    `empty_seek_is_no_seek`; a block section takes precedence over a hash section) this
     covers every combination of sections `verify_proof` accepts. -/
 theorem sound_hash_seek_upgrade (C : Crypto) (bs : Array Bytes) (wfork : Nat) (Signed : Bytes → Prop)
     (t : Tree) (f : File) (pk : Bytes) (p : Proof) (hsec : Codec.DataHash) (s : Codec.DataSeek) (m0 : Codec.Node) (hrest : List Codec.Node)
